@@ -449,7 +449,7 @@ def _route_obs(app, req, out):
     name = getattr(fn, '__name__', None)
     mod = getattr(fn, '__module__', None)
     obs = {'m': enc(req.method), 'p': enc(req.path), 'tmpl': enc(uri_template), 'fn': enc(name), 'mod': enc(mod),
-           'routed': resource is not None, 'kind': 'res', 'fb': -1,
+           'routed': resource is not None, 'kind': 'res', 'fb': [],
            'params': [[enc(k), enc(v)] for k, v in params.items()] if type(params) is dict else {'o': _tname(params)}}
     if mod == 'falcon.responders' and name in _INTERNAL_RESPONDERS:
         obs['kind'] = _INTERNAL_RESPONDERS[name]
@@ -457,7 +457,8 @@ def _route_obs(app, req, out):
         hits = [e for e in app._sink_and_static_routes if e[1] is responder]
         if hits:
             obs['kind'] = 'sink' if hits[0][2] else 'static'
-            obs['fb'] = _slot(app)['stamps'].get(id(hits[0]), -1) if len(hits) == 1 else -2
+            st = _slot(app)['stamps']
+            obs['fb'] = [st.get(id(e), -1) for e in hits]      # one callable may serve several prefixes
         else:
             obs['kind'] = 'unknown'
     return obs
